@@ -205,6 +205,8 @@ func c04Run(c c04Case) []mc.Finding {
 		d := kit.Obj(kit.Leaf, "", "new")
 		if c.DesiredLabels == "match" && c.Selector != "generated" {
 			kit.Labels(d, "app", "x", "tier", "t")
+		} else if c.DesiredLabels == "nomatch" && c.Selector == "generated" {
+			kit.Labels(d, "controller-uid", "uid-of-another-parent") // e.g. labels copied from another parent's child
 		} else if c.DesiredLabels == "nomatch" {
 			kit.Labels(d, "app", "bad")
 		}
@@ -370,7 +372,7 @@ func c04Run(c c04Case) []mc.Finding {
 	}
 	// desired child whose labels would not satisfy the selector: rejected before anything is written
 	hookCalled := len(w.Hooks.Calls) > 0
-	if hookCalled && c.DesiredLabels == "nomatch" && c.Selector != "generated" {
+	if hookCalled && c.DesiredLabels == "nomatch" {
 		if err == nil {
 			bad("orphaning-child-accepted", "a desired child that does not match the selector was accepted")
 		}
@@ -380,7 +382,7 @@ func c04Run(c c04Case) []mc.Finding {
 			}
 		}
 	}
-	if hookCalled && c.Selector == "generated" {
+	if hookCalled && c.Selector == "generated" && c.DesiredLabels != "nomatch" {
 		for _, r := range w.Sim.Log {
 			if r.Kind == kit.Leaf && r.Verb == "create" && kit.Str(r.Body, "metadata", "labels", "controller-uid") != "puid" {
 				bad("generated-label-missing", "child created without the controller-uid label")
